@@ -25,6 +25,7 @@ Answer `model=<…> holds=<0|1>`:
 import Std.Data.HashSet
 import KafkaVerif.Base.Proto
 import KafkaVerif.Model.WriterClose
+import KafkaVerif.Model.ReaderClose
 
 namespace KV.OracleC09
 open KV KV.WriterClose
@@ -223,6 +224,149 @@ def holds (cfg : Cfg) (toks : List Tok) : Bool :=
 
 end WMon
 
+/-! ## Reader / ConsumerGroup / Transport: simulation over Model/ReaderClose and monitor -/
+
+namespace R
+open KV.ReaderClose
+
+abbrev RS := Std.HashSet ReaderClose.State
+
+def parseMember (s : String) : Option (Option Nat) :=
+  if s == "_" then some none else (s.drop 1).toString.toNat?.map some
+
+def parseKind : String → Option Kind
+  | "fetch" => some .fetch | "read" => some .read | "commit" => some .commit | "next" => some .next
+  | "rt" => some .roundTrip | _ => none
+
+def parseRes : String → Option ReaderClose.Res
+  | "msg" => some .msg | "eof" => some .eof | "ctx" => some .ctx | "closed" => some .closedPipe
+  | "gclosed" => some .groupClosed | "gen" => some .gen | "ok" => some .ok | "err" => some .err | _ => none
+
+/-- model events an observed token may stand for (`none` = unparsable, `[]` + true = ignore) -/
+def tokEvents (t : String) : Option (List ReaderClose.Event) :=
+  match t.splitOn "/" with
+  | ["rb", c, k] => do some [.callBegin (← c.toNat?) (← parseKind k)]
+  | ["cx", c] => do some [.ctxCancel (← c.toNat?)]
+  | ["rr", c, r] => do some [.callRet (← c.toNat?) (← parseRes r)]
+  | ["xb"] => some [.closeBegin]
+  | ["xr"] => some [.closeReturn]
+  | ["gj", m] => do some [.join (← parseMember m)]
+  | ["gJ", m] => do match (← parseMember m) with | some n => some [.joinOk n] | none => none
+  | ["gE"] => some [.joinErr, .coordErr]
+  | ["gs"] => some [.sync]
+  | ["go"] => some [.offsetFetch]
+  | ["gh", m] => do match (← parseMember m) with | some n => some [.heartbeat n] | none => none
+  | ["gc"] => some [.commit]
+  | ["gl", m] => do match (← parseMember m) with | some n => some [.leave n] | none => none
+  | ["co", _] => some [.coordOpen]
+  | ["cc", _] => some [.connClose]
+  | ["bo", _] => some [.dial]
+  | ["bc", _] => some [.connClose]
+  | ["fq"] => some [.fetchReq]
+  | ["lk", _] => some []
+  | ["oc", _] => some []
+  | _ => none
+
+partial def closure (work : List ReaderClose.State) (seen : RS) : RS :=
+  match work with
+  | [] => seen
+  | s :: rest =>
+    let (work', seen') := ReaderClose.taus.foldl (fun (acc : List ReaderClose.State × RS) e =>
+      if e == .fetcherStart && s.fetchers ≥ 2 then acc else
+      match ReaderClose.step s e with
+      | some s' => if acc.2.contains s' then acc else (s' :: acc.1, acc.2.insert s')
+      | none => acc) (rest, seen)
+    closure work' seen'
+
+def closeSet (l : List ReaderClose.State) : RS :=
+  let init : RS := l.foldl (fun h s => h.insert s) {}
+  closure init.toList init
+
+/-- cancelling the context of a call that has already returned is a no-op: such `cx` tokens are dropped -/
+def dropLateCancels (toks : List String) : List String :=
+  (toks.zipIdx.filter fun (t, i) =>
+    match t.splitOn "/" with
+    | ["cx", c] => !((toks.take i).any fun (u : String) => u.startsWith s!"rr/{c}/")
+    | _ => true).map (·.1)
+
+def simulate (group : Bool) (toks0 : List String) : String := Id.run do
+  let toks := dropLateCancels toks0
+  let mut ss : RS := closeSet [ReaderClose.State.init group]
+  let mut k := 0
+  for t in toks do
+    match tokEvents t with
+    | none => return s!"bad-token:{t}"
+    | some [] => pure ()
+    | some evs =>
+      let next := ss.fold (fun acc s => evs.foldl (fun acc e =>
+        match ReaderClose.step s e with | some s' => s' :: acc | none => acc) acc) []
+      let ss' := closeSet next
+      if ss'.isEmpty then return s!"reject@{k}:{t}"
+      ss := ss'
+    k := k + 1
+  let sawXb := toks.contains "xb"
+  let sawXr := toks.contains "xr"
+  -- prediction (resources_released / reader_close_progress): Close returns, every call returns, nothing is left
+  let close := if sawXr then "ret" else if sawXb then "ret" else "none"
+  let pend := dedupSort (ss.toList.flatMap fun s => if s.close = 3 || !sawXb then s.calls.map (·.id) else [])
+  return s!"close={close} pending={showIds pend} leak=0 conns=0"
+
+/-- monitor on the observed tokens alone -/
+def holds (toks : List String) : Bool :=
+  let z := toks.zipIdx
+  let pos := fun (p : String → Bool) => (z.find? fun x => p x.1).map (·.2)
+  let xb := pos (· == "xb")
+  let xr := pos (· == "xr")
+  let isSend := fun (t : String) => ["fq", "gs", "go", "gc"].contains t ||
+    ["gj/", "gh/", "gl/", "co/", "bo/"].any (fun p => t.startsWith p)
+  -- M1 Close returns
+  let m1 := xb.isNone || xr.isSome
+  -- M2 nothing sent after Close returned
+  let m2 := match xr with
+    | some i => z.all fun x => !(x.2 > i && isSend x.1)
+    | none => true
+  -- M3 the group was left: the member id held at Close was sent in a LeaveGroup before Close returned
+  let held := (match xr with | some i => toks.take i | none => toks).foldl (fun (acc : Option String × Bool) (t : String) =>
+      if t.startsWith "gj/" then (acc.1, true)
+      else if t.startsWith "gJ/" then (some (t.drop 3).toString, false)
+      else if t == "gE" then (if acc.2 then (none, false) else acc)
+      else if t.startsWith "gl/" then (if acc.1 == some (t.drop 3).toString then (none, acc.2) else acc)
+      else acc) (none, false)
+  let m3 := xr.isNone || held.1.isNone
+  -- M4/M5/M6 every call returns; results after Close; cancelled calls
+  let calls := toks.filterMap fun t => match t.splitOn "/" with | ["rb", c, k] => some (c, k) | _ => none
+  let m456 := calls.all fun (c, k) =>
+    let b := pos (· == s!"rb/{c}/{k}")
+    let r := z.find? fun x => x.1.startsWith s!"rr/{c}/"
+    let cancelled := toks.contains s!"cx/{c}"
+    match r with
+    | none => false
+    | some (rt, _) =>
+      let res : String := (rt.drop (s!"rr/{c}/".length)).toString
+      let afterClose : Bool := match xr, b with | some i, some j => decide (j > i) | _, _ => false
+      if afterClose then
+        (match k with
+         | "fetch" | "read" => res == "eof" || (cancelled && res == "ctx")
+         | "commit" => res == "closed" || res == "ok" || (cancelled && res == "ctx")
+         | "next" => res == "gclosed" || (cancelled && res == "ctx")
+         | _ => true)
+      else (res != "ctx" || cancelled) && (res != "eof" || xb.isSome) && (res != "closed" || xb.isSome) && (res != "gclosed" || xb.isSome)
+  -- M7 census
+  let m7 := toks.all fun (t : String) => !(t.startsWith "lk/" || t.startsWith "oc/") || t == "lk/0" || t == "oc/0"
+  m1 && m2 && m3 && m456 && m7
+
+/-- Transport round trips: each call is `roundTrip`; cancelled calls must have returned the context's error -/
+def holdsT (toks : List String) : Bool :=
+  let calls := toks.filterMap fun t => match t.splitOn "/" with | ["rb", c, _] => some c | _ => none
+  calls.all (fun c => toks.contains s!"rr/{c}/ctx" || toks.contains s!"rr/{c}/err" && !toks.contains s!"cx/{c}") &&
+  toks.all fun (t : String) => !(t.startsWith "lk/" || t.startsWith "oc/") || t == "lk/0" || t == "oc/0"
+
+def simulateT (toks : List String) : String :=
+  match simulate false toks with
+  | r => if r.startsWith "close=" then (r.drop ("close=none ".length)).toString else r
+
+end R
+
 def answer (model : String) (holds : Bool) : String :=
   s!"model={model} holds={if holds then 1 else 0}"
 
@@ -234,6 +378,9 @@ def step (line : String) : String :=
       match parseCfg cfgs, toks.mapM (fun t => (parseTok t).map fun x => (t, x)) with
       | some cfg, some ts => answer (simulate cfg ts) (WMon.holds cfg (ts.map (·.2)))
       | _, _ => "bad-op"
+    | "rclose" :: cfgs :: toks =>
+      answer (R.simulate (cfgs.startsWith "grp=1") toks) (R.holds toks)
+    | "tclose" :: _ :: toks => answer (R.simulateT toks) (R.holdsT toks)
     | _ => "bad-op"
   | _ => "bad-line"
 
